@@ -304,6 +304,15 @@ def check_solution(case, dump, val, objective, V, label):
 
 
 def analyse(case, V, res, enumerate_solutions=True):
+    from pbt import solvercap
+
+    try:
+        return _analyse(case, V, res, enumerate_solutions)
+    except solvercap.SolverBudget as e:
+        return None, f"solver budget: {e}"
+
+
+def _analyse(case, V, res, enumerate_solutions=True):
     import gurobipy as gp
     from gurobipy import GRB
 
@@ -358,6 +367,8 @@ def execute(case):
     if err is not None:
         if "must have at least one child with utility" in err:
             res.discard = "max_without_live_children"
+        elif err.startswith("solver budget"):
+            res.discard = "solver_time_budget"
         elif "time bounds wrapped below zero" in err:
             V.append(Violation("pass_wraps_time_bounds", f"{err}; case={case}", "strl.pass_wraps_time_bounds.windowed_choose." + "+".join(case.get("passes", []))))
         else:
@@ -477,6 +488,9 @@ def exec_passes(case):
         c = dict(case, passes=passes)
         info, err = analyse(c, V, res, enumerate_solutions=False)
         name = "+".join(passes)
+        if err is not None and err.startswith("solver budget"):
+            res.discard = "solver_time_budget"
+            return res
         if err is not None:
             why = ".max_left_with_no_utility_children_only" if "must have at least one child with utility" in err else ""
             V.append(Violation("pass_breaks_lowering", f"with passes {passes}: {err}; case={case}", f"strl.pass_breaks_lowering.{name}{why}"))
